@@ -104,5 +104,5 @@ let run_with (type st) (init : st) (step : st -> op -> st * res) file =
 let () =
   match Sys.argv.(1) with
   | "S" -> run_with init step Sys.argv.(2)
-  | "M" -> run_with init step Sys.argv.(2)
+  | "M" -> run_with minit mstep Sys.argv.(2)
   | _ -> prerr_endline "usage: vgraph_model S|M file"; exit 2
